@@ -602,6 +602,7 @@ def check_caches(rep: Report, rc: str, m, modules: Optional[Tuple[str, ...]] = N
             f"{fi.qualname} is memoised with {cached[0]} for the life of the process and {why}: objects of different assets (same row numbers on different sheets) share a cache entry, "
             "so an asset's results depend on which assets were processed before it",
             loc(fi.node),
+            definite=True,
         )
     return n
 
